@@ -158,6 +158,7 @@ class C14(Check):
                     "(full_time_points >= t_start) & (full_time_points < t_end)", expect="Q3|", quick=True),
             Variant("no-index-shift", SIM, PT, "(cast(pd.TimedeltaIndex, protocol.index) + pd.Timedelta(t_start, unit='s')).total_seconds()",
                     "cast(pd.TimedeltaIndex, protocol.index).total_seconds()", expect="Q2|", quick=True),
+            Variant("seconds-component", SIM, P, "t_start + t_end.total_seconds()", "t_start + t_end.seconds", expect="Q2|", quick=True),
             Variant("protocol-advances-t_start", SIM, P, "        if self.variables is None:\n            break",
                     "        t_start = t_start + t_end.total_seconds()\n        if self.variables is None:\n            break", expect="Q2|"),
             Variant("relative-always", SIM, PT, "    if time_points_as_relative:\n        time_points += t_start", "    time_points += t_start", expect="Q"),
